@@ -59,10 +59,13 @@ def _shared(text):
 
 
 class _Flow(object):
-    def __init__(self, pre_names, pylists, loopvar):
+    def __init__(self, pre_names, pylists, loopvar, watch=()):
         self.pre = set(pre_names)
         self.pylists = set(pylists)
         self.loopvar = loopvar
+        self.watch = set(watch)   # callee names whose argument origins are recorded per call site (C07: convert_params)
+        self.calls = {}           # (lineno, callee) -> list (per positional argument) of origin sets, unioned over the passes
+        self.ownrow = set()       # origin texts that are a basic-slice view of ROW i (i = the loop variable) of a table bound before the loop
         self.writes = {}          # (target, origin text, fresh) -> sorted set of line numbers
         self.own_row = 0
         self.loops = []           # stack of dicts(breaks=[envs], conts=[envs]) for loops nested inside the row loop
@@ -104,6 +107,12 @@ class _Flow(object):
             base = self.val(e.value, env)
             if all(f for _, f in base) or self._fancy_index(e.slice):
                 return _fresh(u(e)[:60])
+            idx0 = e.slice.elts[0] if isinstance(e.slice, ast.Tuple) and e.slice.elts else e.slice
+            if (self.loopvar is not None and isinstance(e.value, ast.Name) and e.value.id in self.pre and e.value.id not in env
+                    and isinstance(idx0, ast.Name) and idx0.id == self.loopvar):
+                d = "%s = row i (the row's own slot) of %s (table bound before the loop)" % (u(e), e.value.id)
+                self.ownrow.add(d)
+                return _shared(d)
             return frozenset([("%s = view of %s" % (u(e), d) if not d.startswith(u(e)) else d, False) for d, f in base if not f]) | \
                 frozenset([(d, True) for d, f in base if f])
         if isinstance(e, ast.Attribute):
@@ -159,6 +168,10 @@ class _Flow(object):
             if not isinstance(c, ast.Call):
                 continue
             fn = u(c.func)
+            if fn in self.watch:
+                got = [self.val(a, env) for a in c.args]
+                old = self.calls.get((c.lineno, fn))
+                self.calls[(c.lineno, fn)] = got if old is None or len(old) != len(got) else [a | b for a, b in zip(old, got)]
             for k in c.keywords:
                 if k.arg == "out":
                     for t in (k.value.elts if isinstance(k.value, ast.Tuple) else [k.value]):
@@ -339,9 +352,11 @@ def bound_names(stmts):
     return out
 
 
-def analyse(fn, loop):
+def analyse(fn, loop, watch=(), info=None):
     """fn: FunctionDef of match.main; loop: its `for i in range(len(fcn_list_proc))`.
-    -> (sorted list of (target, origin, fresh, lines), number of own-row writes)"""
+    -> (sorted list of (target, origin, fresh, lines), number of own-row writes).
+    `watch`: callee names whose per-call-site argument origins are wanted; `info` (a dict) then receives
+    calls = {(lineno, callee): [origin set per positional argument]} and ownrow = the origin texts that are the row's own slot."""
     if not isinstance(loop.target, ast.Name):
         raise ExtractError("match.main alias analysis: loop target is not a name")
     k = fn.body.index(loop)
@@ -357,7 +372,7 @@ def analyse(fn, loop):
             else:
                 pylists.discard(s.targets[0].id)
     # a name bound before the loop and RE-bound after it, or bound by a nested def, is still just "pre"
-    fl = _Flow(pre, pylists, loop.target.id)
+    fl = _Flow(pre, pylists, loop.target.id, watch)
     if loop.orelse:
         raise ExtractError("match.main alias analysis: for/else on the loop over the functions")
     cur = {loop.target.id: _fresh("loop variable")}
@@ -374,4 +389,31 @@ def analyse(fn, loop):
         raise ExtractError("match.main alias analysis: no fixed point")
     rows = [(t, d, f, sorted(ls)) for (t, d, f), ls in fl.writes.items()]
     rows.sort(key=lambda r: (r[0], r[1], r[2]))
+    if info is not None:
+        info["calls"], info["ownrow"] = dict(fl.calls), set(fl.ownrow)
     return rows, fl.own_row
+
+
+ARG = "argument `%s` (the caller's object)"
+
+
+def analyse_function(fn):
+    """Whole body of a per-function routine (C07: test_all_Fisher.convert_params): which arrays does it write in place, and is the
+    array, on some path reaching the write, (a view of) one of its ARGUMENTS?  Same rules as `analyse`; the origin of a parameter
+    `a` is ARG % a (not fresh); nothing is bound before, there is no row loop.
+    -> sorted list of (target, origin, fresh, lines)"""
+    if fn.args.vararg or fn.args.kwarg:
+        raise ExtractError("%s alias analysis: *args/**kwargs" % fn.name)
+    fl = _Flow(set(), set(), None)
+    env = {a.arg: _shared(ARG % a.arg) for a in fn.args.posonlyargs + fn.args.args + fn.args.kwonlyargs}
+    fl.block(fn.body, env)
+    rows = [(t, d, f, sorted(ls)) for (t, d, f), ls in fl.writes.items()]
+    rows.sort(key=lambda r: (r[0], r[1], r[2]))
+    return rows
+
+
+def arg_of(origin):
+    """the parameter name an origin text of `analyse_function` goes back to, or None"""
+    import re
+    m = re.search(r"argument `(\w+)` \(the caller's object\)", origin)
+    return m.group(1) if m else None
